@@ -29,5 +29,7 @@ pub assume_specification<T>[ <[T]>::as_ptr ](s: &[T]) -> (r: *const T);
 
 //@include inc/deser_impls.tpl
 
+//@include inc/deser_vec.tpl
+
 } // verus!
 fn main() {}
